@@ -42,7 +42,8 @@ type sliceWriter struct{ b []byte }
 func (s *sliceWriter) Write(p []byte) (int, error) { s.b = append(s.b, p...); return len(p), nil }
 
 // encodeAll produces the encodings of one block by every path: EncodeBlock into an empty buffer,
-// into a pre-filled buffer, and WriteBlock + Flush through the vectored writer (fresh columns each time).
+// into a pre-filled buffer, into a reused buffer with stale spare capacity, and WriteBlock + Flush through
+// the vectored writer (fresh columns each time).
 func encodeAll(cs []bcol, rows, rev int) (canon []byte, alts []map[string]any, err error) {
 	blk := proto.Block{Columns: len(cs), Rows: rows}
 	_, in := buildCols(cs)
@@ -93,6 +94,27 @@ func encodeAll(cs []bcol, rows, rev int) (canon []byte, alts []map[string]any, e
 		return nil, nil, err
 	}
 	alts = append(alts, map[string]any{"mode": "EncodeBlock twice", "prefixKept": true, "equal": bytes.Equal(b6.Buf, canon)})
+	// a reused output buffer: its spare capacity holds stale bytes of an earlier use
+	_, in7 := buildCols(cs)
+	stale := bytes.Repeat([]byte{0x07}, 2*len(canon)+64)
+	b7 := proto.Buffer{Buf: stale[:5]}
+	if err := blk.EncodeBlock(&b7, rev, in7); err != nil {
+		return nil, nil, err
+	}
+	alts = append(alts, map[string]any{"mode": "EncodeBlock+stale-capacity", "prefixKept": bytes.Equal(b7.Buf[:5], []byte{7, 7, 7, 7, 7}),
+		"equal": bytes.Equal(b7.Buf[5:], canon)})
+	// the vectored writer over a reused staging buffer
+	_, in8 := buildCols(cs)
+	sw8 := &sliceWriter{}
+	stale8 := bytes.Repeat([]byte{0x07}, 2*len(canon)+64)
+	w8 := proto.NewWriter(sw8, &proto.Buffer{Buf: stale8[:0]})
+	if err := blk.WriteBlock(w8, rev, in8); err != nil {
+		return nil, nil, err
+	}
+	if _, err := w8.Flush(); err != nil {
+		return nil, nil, err
+	}
+	alts = append(alts, map[string]any{"mode": "WriteBlock+Flush+stale-capacity", "prefixKept": true, "equal": bytes.Equal(sw8.b, canon)})
 	return canon, alts, nil
 }
 
